@@ -1499,6 +1499,9 @@ class Interp:
                 if m.is_property:
                     return self.call_function(m, SV(base.t, ty, base.c), [], {}, fr, node)
                 return PBound(SV(base.t, ty, base.c), m)
+            for c_ in ci.mro():  # a nested class reached through an instance (self.Inner)
+                if attr in c_.nested:
+                    return PClass(c_.nested[attr])
             aty = self.attr_type(ci, attr, fr)
             if aty is None:
                 # attribute declared lower in the hierarchy: usable only when every declaring subclass agrees on its type
@@ -1555,6 +1558,26 @@ class Interp:
                 v = SV(st.getf(r, "net:prefixlen"), T.INT)
                 st.assume(z3.And(smt.is_int(v.t), smt.ival(v.t) >= 0, smt.ival(v.t) <= 32))
                 return v
+        if extname == "ParseResult":
+            # urllib.parse.urlparse(x): the parts are uninterpreted functions of the parsed text; a missing text (None) has
+            # no host and no port (CPython: urlparse(None).hostname is None)
+            if not (isinstance(base.c, tuple) and base.c and base.c[0] == "url"):
+                raise Refuse("urlparse result that went through the heap")
+            src = base.c[1]  # the parsed text travels with the value, not in the heap (a parse result is immutable)
+            if attr == "hostname":
+                F = z3.Function("url_hostname", Val, Val)
+                v = SV(F(src), T.OPT(T.STR))
+                st.assume(z3.Or(smt.is_none(v.t), z3.And(smt.is_str(v.t), smt.sval(v.t) >= 0)))
+                st.assume(z3.Implies(smt.is_none(src), smt.is_none(v.t)))
+                return v
+            if attr == "port":
+                F = z3.Function("url_port", Val, Val)
+                v = SV(F(src), T.OPT(T.INT))
+                st.assume(z3.Or(smt.is_none(v.t), z3.And(smt.is_int(v.t), smt.ival(v.t) >= 0, smt.ival(v.t) < 65536)))
+                st.assume(z3.Implies(smt.is_none(src), smt.is_none(v.t)))
+                return v
+            if attr in ("scheme", "path", "netloc", "query"):
+                return SV(z3.Function("url_" + attr, Val, Val)(src), T.ANY)
         return PContainerMethod(base, attr)
 
     # -- subscripts
@@ -1780,6 +1803,14 @@ class Interp:
             ty = T.parse_ann(node.annotation, fr.module, fr.cls)
             if ty.k != "any":
                 v = SV(v.t, ty, v.c)
+        elif isinstance(node.target, ast.Name) and isinstance(v, SV) and T.strip_opt(v.ty).k == "obj":
+            # `x: Sub = expr` where expr is statically a base class: the annotation is taken as a downcast (A7)
+            ty = T.parse_ann(node.annotation, fr.module, fr.cls)
+            if T.strip_opt(ty).k == "obj" and T.strip_opt(ty).a[0] is not T.strip_opt(v.ty).a[0] \
+                    and T.strip_opt(v.ty).a[0] in T.strip_opt(ty).a[0].mro():
+                nt = T.OPT(T.strip_opt(ty)) if v.ty.k == "opt" else T.strip_opt(ty)
+                v = SV(v.t, nt, v.c)
+                self.st.log.append(f"annotation downcast {T.strip_opt(v.ty).a[0].name} at line {node.lineno} of {fr.module.relpath} trusted (A7)")
         elif isinstance(node.target, ast.Name) and isinstance(v, SV) and v.ty.k == "none":
             ty = T.parse_ann(node.annotation, fr.module, fr.cls)
             if ty.k not in ("any", "none"):
